@@ -328,4 +328,100 @@ theorem pendLoop_spec (P : SProto Q) (cls : Bytes → Ev) (lim : Limits) (mnt : 
     | (refine ⟨Nat.le_trans h1 (Nat.add_le_add_left (hb _ _) _), h2, ?_⟩
        intro s' es' hc; cases hc)
 
+/-! ### one attempt -/
+
+def Step.sys : Step Q → Sys Q
+  | .fin _ s _ | .next s _ _ => s
+
+theorem afterLoss_spec (P : SProto Q) (lim : Limits) (retry : Bool) (i : Nat) (s : Sys Q) (es : List SEv) :
+    (afterLoss P lim retry i s es).sys.now ≤ s.now + (if retry then waitMs lim i + window P else 0) ∧
+    (afterLoss P lim retry i s es).sys.wire = s.wire ∧
+    (∀ s' es', afterLoss P lim retry i s es ≠ .fin .blocked s' es') := by
+  cases retry
+  · simp [afterLoss, Step.sys]
+  · simp only [afterLoss, if_true]
+    have h1 := sleep_time P (waitMs lim i) s es
+    have w1 := sleep_wire P (waitMs lim i) s es
+    generalize sleep P (waitMs lim i) s es = r1 at h1 w1 ⊢
+    have h2 := reconnect_time P r1.1 r1.2
+    have w2 := reconnect_wire P r1.1 r1.2
+    generalize reconnect P r1.1 r1.2 = r2 at h2 w2 ⊢
+    obtain ⟨rc, s2, es2⟩ := r2
+    simp only at h2 w2
+    cases rc <;> simp only [Step.sys] <;> refine ⟨by omega, by rw [w2, w1], ?_⟩ <;> intro s' es' hc <;> cases hc
+
+theorem backoff_spec (P : SProto Q) (lim : Limits) (retry : Bool) (i : Nat) (s : Sys Q) (es : List SEv) :
+    (backoff P lim retry i s es).1.now ≤ s.now + (if retry then waitMs lim i else 0) ∧
+    (backoff P lim retry i s es).1.wire = s.wire := by
+  cases retry
+  · simp [backoff]
+  · simp only [backoff, if_true]
+    exact ⟨sleep_time .., sleep_wire ..⟩
+
+/-- time budget of attempt `i` with caller timeout `t`: acknowledgement, first reply, ResponsePending loop, backoff, reconnect -/
+def attemptBudget (P : SProto Q) (lim : Limits) (t i : Nat) (hp retry : Bool) : Nat :=
+  min t P.ackTime + t + (if hp then pendBudget lim (maxNT lim (some t)) 1 0 else 0) +
+    (if retry then waitMs lim i + window P else 0)
+
+theorem attemptStep_spec (P : SProto Q) (cls : Bytes → Ev) (lim : Limits) (req : Bytes) (t : Nat) (retry : Bool) (i : Nat)
+    (s : Sys Q) (es : List SEv) (last : Out) (hp : Bool) (hnp : hp = false → ∀ d, cls d ≠ .pending) :
+    (attemptStep P cls lim req (some t) retry i s es last).sys.now ≤ s.now + attemptBudget P lim t i hp retry ∧
+    (attemptStep P cls lim req (some t) retry i s es last).sys.wire = s.wire ++ [(s.conn.idx, s.now, req)] ∧
+    (∀ s' es', attemptStep P cls lim req (some t) retry i s es last ≠ .fin .blocked s' es') := by
+  have ht := opRequest_time P s es req t
+  have hw := opRequest_wire P s es req (some t)
+  unfold attemptStep attemptBudget
+  generalize opRequest P s es req (some t) = r at ht hw
+  obtain ⟨res, s1, es1⟩ := r
+  simp only at ht hw
+  obtain ⟨hnb, ht⟩ := ht
+  have hpb := pendBudget_base lim (maxNT lim (some t)) 1 0
+  have hb := backoff_spec P lim retry i
+  have ha := afterLoss_spec P lim retry i
+  rcases retry with _ | _ <;> rcases hp with _ | _ <;>
+    simp only [if_true, if_false, Bool.false_eq_true, ↓reduceIte, forall_const, reduceCtorEq, false_implies] at hb ha hnp ⊢
+  all_goals split
+  all_goals
+    first
+    | (rename_i heq; cases heq; exact absurd rfl hnb)
+    | (rename_i heq; cases heq
+       have hb := hb s1 es1
+       refine ⟨by simp only [Step.sys]; omega, by simp only [Step.sys]; rw [hb.2, hw], ?_⟩
+       intro s' es' hc; cases hc)
+    | (rename_i heq; cases heq
+       have ha := ha s1 es1
+       exact ⟨by omega, by rw [ha.2.1, hw], ha.2.2⟩)
+    | (rename_i heq; cases heq
+       exact ⟨by simp only [Step.sys]; omega, hw, fun _ _ hc => by cases hc⟩)
+    | (rename_i heq; cases heq
+       have hb := hb s1 es1
+       have hp := pendLoop_spec P cls lim (maxNT lim (some t)) s1 es1 1 0
+       split
+       · first
+         | exact ⟨by simp only [Step.sys]; omega, by simp only [Step.sys]; rw [hb.2, hw], fun _ _ hc => by cases hc⟩
+         | exact ⟨by simp only [Step.sys]; omega, hw, fun _ _ hc => by cases hc⟩
+       · exact ⟨by simp only [Step.sys]; omega, hw, fun _ _ hc => by cases hc⟩
+       · exact ⟨by simp only [Step.sys]; omega, hw, fun _ _ hc => by cases hc⟩
+       · first
+         | exact absurd ‹cls _ = Ev.pending› (hnp _)
+         | (obtain ⟨p1, p2, p3⟩ := hp
+            split
+            · rename_i o s2 es2 hpe
+              rw [hpe] at p1 p2 p3
+              simp only [PRes2.sys] at p1 p2
+              refine ⟨by simp only [Step.sys]; omega, by simp only [Step.sys]; rw [p2, hw], ?_⟩
+              intro s' es' hc
+              injection hc with h1 h2 h3
+              exact p3 s2 es2 (by rw [h1])
+            · rename_i s2 es2 hpe
+              rw [hpe] at p1 p2
+              simp only [PRes2.sys] at p1 p2
+              exact ⟨by simp only [Step.sys]; omega, by simp only [Step.sys]; rw [p2, hw], fun _ _ hc => by cases hc⟩
+            · rename_i s2 es2 hpe
+              rw [hpe] at p1 p2
+              simp only [PRes2.sys] at p1 p2
+              have ha := ha s2 es2
+              exact ⟨by omega, by rw [ha.2.1, p2, hw], ha.2.2⟩)
+       · exact ⟨by simp only [Step.sys]; omega, hw, fun _ _ hc => by cases hc⟩)
+
 end Gallia.LossSys
